@@ -18,6 +18,15 @@ def refused(f, *a, **k):
     return False
 
 
+def refused_under(ctx, f, *a, **k):
+    """refused(), whatever warning filters the application has installed (-W error, PYTHONWARNINGS=ignore, default)"""
+    import warnings
+    mode = ctx.choice("warnings_filter", ["default", "error", "ignore"])
+    with warnings.catch_warnings():
+        warnings.simplefilter(mode)
+        return refused(f, *a, **k)
+
+
 def parse_text(text):
     return parse_header(make_source(text.encode("ascii")))
 
@@ -33,7 +42,7 @@ def h_make(ctx, uidlen, sec):
     too_long = uidlen > 36
     if not supported or bad_sec or too_long:
         ctx.check("unsupported version / security level / over-long UID is refused with the header error",
-                  refused(make_header, version, security=security, oldfileuid=old, newfileuid=new))
+                  refused_under(ctx, make_header, version, security=security, oldfileuid=old, newfileuid=new))
         return
     hdr = make_header(version, security=security, oldfileuid=old, newfileuid=new)
     if version < 200:
@@ -112,7 +121,7 @@ def h_corrupt_value(ctx, kind, field, n):
             ctx.assume(ctx.all([val != "0" * k + d for d in dom for k in (1, 2)]))    # 0100 is still 100
     fields[idx] = (field, val)
     text = v1_text(fields) if kind == 1 else v2_text(fields)
-    ctx.check(f"header with {field} outside its domain is refused with the header error", refused(parse_text, text))
+    ctx.check(f"header with {field} outside its domain is refused with the header error", refused_under(ctx, parse_text, text))
 
 
 def h_omit(ctx, kind):
@@ -121,7 +130,7 @@ def h_omit(ctx, kind):
     i = ctx.choice("i", mandatory)
     del fields[i]
     text = v1_text(fields) if kind == 1 else v2_text(fields)
-    ctx.check("header with a mandatory field missing is refused with the header error", refused(parse_text, text))
+    ctx.check("header with a mandatory field missing is refused with the header error", refused_under(ctx, parse_text, text))
 
 
 def h_transpose(ctx, kind):
@@ -129,7 +138,7 @@ def h_transpose(ctx, kind):
     i = ctx.choice("i", list(range(len(fields) - 1)))
     fields[i], fields[i + 1] = fields[i + 1], fields[i]
     text = v1_text(fields) if kind == 1 else v2_text(fields)
-    ctx.check("header with two adjacent fields out of order is refused with the header error", refused(parse_text, text))
+    ctx.check("header with two adjacent fields out of order is refused with the header error", refused_under(ctx, parse_text, text))
 
 
 def h_valid_tokens(ctx, kind):
